@@ -5,6 +5,7 @@ from ..rules_k import K4_codec, K5_graph_form, E2_graph_circuit
 
 def run(tree, rep, tier):
     flow = Flow(tree)
+    flow.describe(rep)
     K4_codec(rep, flow, tier)
     K5_graph_form(rep, flow)
     E2_graph_circuit(rep, flow)
